@@ -14,5 +14,5 @@ SPEC = dict(
         Leg('model', 'h_queue', 'asan', opts={'mode': 'model'}, quick=24000, thorough=600000, workers=16, leaks=True),
         Leg('memcheck', 'h_queue', 'plain', opts={'mode': 'model'}, quick=480, thorough=9600, workers=16, valgrind=True),
     ],
-    min_stats={'model': {'cases_with_ring_wraparound': 100, 'cases_with_shrink': 100, 'cases_big': 10, 'type_bool': 1000, 'iterator_surface_checks': 20000, 'iterator_surface_nonunit_stride_nonempty_walk': 5000}, 'regress': {'regress_F55_checked': 1, 'regress_iterator_assign_checked': 1}},
+    min_stats={'model': {'cases_with_ring_wraparound': 100, 'cases_with_shrink': 100, 'cases_big': 10, 'type_bool': 1000, 'iterator_surface_checks': 20000, 'coarse_sorts_of_12_or_more_items': 5000, 'iterator_surface_nonunit_stride_nonempty_walk': 5000}, 'regress': {'regress_F55_checked': 1, 'regress_iterator_assign_checked': 1}},
 )
